@@ -3,7 +3,7 @@ use crate::{
     model::__DirectiveLocation,
     parser::types::{
         Directive, Field, FragmentDefinition, FragmentSpread, InlineFragment, OperationDefinition,
-        OperationType,
+        OperationType, VariableDefinition,
     },
     validation::visitor::{Visitor, VisitorContext},
 };
@@ -52,6 +52,23 @@ impl<'a> Visitor<'a> for KnownDirectives {
         _ctx: &mut VisitorContext<'a>,
         _name: &'a Name,
         _fragment_definition: &'a Positioned<FragmentDefinition>,
+    ) {
+        self.location_stack.pop();
+    }
+
+    fn enter_variable_definition(
+        &mut self,
+        _ctx: &mut VisitorContext<'a>,
+        _variable_definition: &'a Positioned<VariableDefinition>,
+    ) {
+        self.location_stack
+            .push(__DirectiveLocation::VARIABLE_DEFINITION);
+    }
+
+    fn exit_variable_definition(
+        &mut self,
+        _ctx: &mut VisitorContext<'a>,
+        _variable_definition: &'a Positioned<VariableDefinition>,
     ) {
         self.location_stack.pop();
     }
